@@ -210,8 +210,8 @@ Proof.
             step MUnwrap 0 (sh st) PCall (LSsl a) = Some (set_wbio (sh st) w, PFlush k, [])).
   { destruct Hout as [[v Hv] | Hwr].
     - exists (KRet v). split; [exact I |]. unfold step. rewrite Hm, Harg, Hv, <- Ew.
-      cbn [meth_eqb expected_arg Nat.eqb andb negb]. unfold flush_pc, wbio_empty. cbn [wbio set_wbio].
-      destruct w; [congruence |]. rewrite andb_false_r. reflexivity.
+      cbn [meth_eqb expected_arg Nat.eqb andb negb]. unfold done_pc, flush_pc, wbio_empty. cbn [wbio set_wbio meth_eqb].
+      rewrite andb_false_r. destruct w; [congruence |]. rewrite andb_false_r. reflexivity.
     - exists (KRead (feeds (sh st))). split; [exact I |]. unfold step. rewrite Hm, Harg, Hwr, <- Ew.
       cbn [meth_eqb expected_arg Nat.eqb andb negb]. unfold flush_pc, wbio_empty. cbn [wbio set_wbio feeds].
       destruct w; [congruence |]. rewrite andb_false_r. reflexivity. }
